@@ -39,14 +39,17 @@ def load_known(pid):
     kf=json.load(open(p))
     return [f for f in kf.get('findings',[]) if f['property']==pid]
 
+def verdict_class(o):
+    return 'ok' if o.startswith('ok') else ('panic' if o.startswith('panic') else 'err')
 def matches_expect(native_res,pred):
     """does the native result reproduce the interpreter's predicted outcome?"""
     outs=native_res.get('outcomes') or [native_res.get('outcome')]
-    if isinstance(pred,(list,tuple,set)): return set(outs)==set(pred) or any(o in pred for o in outs) and native_res.get('nondet')
+    outs=['panic' if o.startswith('panic') else o for o in outs]
+    if pred=='nondeterministic-summary': return len(native_res.get('summaries') or [])>1
+    if isinstance(pred,(list,tuple)):           # verdict depends on iteration order: both classes must show up natively
+        return len(set(verdict_class(o) for o in outs))>1
     if pred=='err': return all(o.startswith('err') for o in outs)
-    if pred in outs and len(outs)==1: return True
-    if pred.startswith('err') and all(o.startswith('err') for o in outs) and pred=='err': return True
-    return False
+    return len(set(outs))==1 and outs[0]==pred
 
 def main():
     ap=argparse.ArgumentParser()
@@ -184,6 +187,8 @@ def main():
         import jsonschema
         jsonschema.validate(evid,json.load(open(os.path.join(VERIF,'schemas','EVIDENCE.schema.json'))))
     except ImportError: pass
+    except Exception as e:
+        print('INCONCLUSIVE property=%s reason=evidence does not validate: %s'%(pid,str(e)[:200])); rc=rc or 2
     json.dump(evid,open(os.path.join(VERIF,'evidence','%s.json'%pid),'w'),indent=1,sort_keys=True)
     print('%s tier=%s rc=%d paths=%d queries=%d validated=%d wall=%.1fs'%(pid,tier,rc,cov['states'],cov['transitions'],cov['traces_validated_against_impl'],time.time()-t0))
     return rc
